@@ -62,6 +62,7 @@ def build_world(shape):
     W['ints'] = [5.0, 1.0, 2.0, 7.0, 3.0]
     W['theo'] = list(base)
     W['smzs'] = sorted(W['mzs'])
+    W['theo_desc'] = sorted(base, reverse=True)     # plain m/z values in descending order (fragment(..., return_type='mz'))
     W['matches'] = p.get_fragment_matches(list(W['frags']), list(W['mzs']), list(W['ints']), 0.5, 'th', 'all')
     W['cfg'] = p.EnzymeConfig(['lys-c'], 1, False, True)
     W['cfgs'] = [p.EnzymeConfig(['lys-c'], 0, False, True), p.EnzymeConfig('glu-c', 0, False, False)]
@@ -148,6 +149,8 @@ def L(p):
     t['mass-formula-mod'] = lambda W: (p.mass('PEK[Formula:C6H12O6]'), p.comp('PEK[Formula:C6H12O6][Acetyl]'))
     t['mod_mass-str'] = lambda W: (p.mod_mass('Acetyl'), p.mod_mass('Formula:C6H12O6', False), p.mod_mass('M:00719'))
     t['parse_glycan_formula'] = lambda W: (p.parse_glycan_formula('HexNAc2Hex3'), p.glycan_comp('HexNAc2Hex3'))
+    t['mass-composite-glycan'] = lambda W: (p.mass('N[Glycan:HexNAc2Hex3]K'), p.mod_mass('Glycan:HexNAc2Hex3Fuc1', False),
+                                            p.mz('{Glycan:Hex3HexNAc2}NK', charge=2), p.mod_comp('Glycan:HexNAc2Hex3'))
     t['parse'] = lambda W: p.parse(SHAPES[0])
     t['mass'] = lambda W: p.mass(W[A])
     t['mass-b'] = lambda W: p.mass(W[A], charge=1, ion_type='b', monoisotopic=False)
@@ -188,6 +191,7 @@ def L(p):
     t['get_fragment_matches-largest'] = lambda W: p.get_fragment_matches(W['frags'], W['mzs'], W['ints'], 0.5, 'th', 'largest')
     t['get_match_coverage'] = lambda W: p.get_match_coverage(W['matches'])
     t['binomial_score'] = lambda W: p.binomial_score(W['frags'], W['mzs'], 0.5, 'th')
+    t['binomial_score-mzlist'] = lambda W: p.binomial_score(W['theo_desc'], W['smzs'], 0.5, 'th')
     t['get_matched_intensity_percentage'] = lambda W: p.get_matched_intensity_percentage(W['matches'], W['ints'])
     t['filter_missing_mono_isotope'] = lambda W: p.filter_missing_mono_isotope(W['matches'])
     t['filter_skipped_isotopes'] = lambda W: p.filter_skipped_isotopes(W['matches'])
@@ -293,7 +297,7 @@ def labels():
 
 
 # labels known (by reading) to touch caller-owned objects or global state: first/second element of thorough triples
-TOUCHY = ['mod_mass-precision', 'C.__eq__', 'shared-Fragmenter-ml2', 'fragment-avg', 'apply_isotope_mods_to_composition-str', 'mod_comp-str', 'split', 'A.split', 'permutations', 'A.permutations', 'product', 'combinations', 'combinations_with_replacement',
+TOUCHY = ['mass-composite-glycan', 'binomial_score-mzlist', 'mod_mass-precision', 'C.__eq__', 'shared-Fragmenter-ml2', 'fragment-avg', 'apply_isotope_mods_to_composition-str', 'mod_comp-str', 'split', 'A.split', 'permutations', 'A.permutations', 'product', 'combinations', 'combinations_with_replacement',
           'fragment', 'fragment-losses', 'Fragmenter', 'condense_to_mass_mods', 'isotopic_distribution', 'isotopic_distribution-zeros',
           'get_fragment_matches', 'shuffle-seed', 'A.shuffle-seed', 'fix_list_of_mods', 'create_annotation',
           'create_annotation-raw', 'comp_mass', 'count_residues', 'apply_static_mods', 'apply_variable_mods',
